@@ -64,6 +64,12 @@ func ModStmts() []Stmt {
 	add("replace", "replace a.com/x => \"./say\\\"hi\\\"\" // s\n")
 	add("replace", "replace a.com/x => \"./back`tick\"\n")
 	add("replace", "replace a.com/x => \"./tab\\there\"\n")
+	// escapes other than \\ and \" inside quoted strings, and values that end in a backslash
+	add("replace", "replace a.com/x => \"../my dir\\x5c\"\n")
+	add("replace", "replace a.com/x => \"../q\\134\" // s\n")
+	add("replace", "replace a.com/x => \"../a b\\u005c\\u005c\"\n")
+	add("replace", "replace a.com/x => \"../\\x22quoted\\x22 dir\"\n")
+	add("replace", "replace a.com/x => \"../nl\\x0adir\"\n")
 	add("replace", "replace (\n\ta.com/x => ./x\n\t// b\n\tb.com/y v1.0.0 => c.com/z v1.2.0 // s\n)\n")
 	addFix("replace", "replace a.com/x v1 => b.com/y v1.1\n")
 	addFix("replace", "replace a.com/x => b.com/y v1\n")
@@ -111,6 +117,8 @@ func WorkStmts() []Stmt {
 	add("use", "use \"./dir with space\" // s\n")
 	add("use", "use \"./o'brien\"\n")
 	add("use", "use \"./say\\\"hi\\\"\"\n")
+	add("use", "use \"./my modules\\x5c\"\n")
+	add("use", "use \"./a\\134\" // s\n")
 	add("use", "use (\n\t./a\n\t// b\n\t../b // s\n)\n")
 	add("use", "// bb\nuse (\n\t./a\n\n\t./c\n)\n")
 	add("replace", "replace a.com/x => ../x\n")
